@@ -18,6 +18,7 @@ successful requests changed (every other instance byte for byte); the executed w
 exactly one transfer per successful request (fragments tile their value; bit writes: one
 Read-Modify-Write per word naming only requested bits); a following read returns the written value;
 a request reported failed changed nothing; the target saw no malformed / oversize request."""
+import copy
 import os
 import re
 import signal
@@ -255,6 +256,13 @@ def fixed_scenario():
     sc.tags.append(mk("tmr", "s", 0xF83))
     sc.tags.append(mk("mix", "s", 0x2A0))
     sc.tags.append(mk("mixes", "s", 0x2A0, [3]))
+    # a structure whose BOOL member is listed BEFORE the visible member it overlays (outside Proofs/WriteStruct.ty_guard;
+    # Props/C02.C02_full_refuted): code and reference agree on every dict that does not contradict itself
+    sc.templates.append({"id": 0x2B0, "name": "modT", "tail": "nA1B2", "handle": 0x1235, "size": 4, "defsize": 0, "depth": 1, "members": [
+        {"name": "Pt00", "kind": "a", "code": S.BOOL, "arr": 0, "off": 0, "bit": 0, "hidden": False},
+        {"name": "Data", "kind": "a", "code": S.INT, "arr": 0, "off": 0, "bit": 0, "hidden": False},
+        {"name": "Pad", "kind": "a", "code": S.INT, "arr": 0, "off": 2, "bit": 0, "hidden": False}]})
+    sc.tags.append(mk("modv", "s", 0x2B0))
     for g in sc.data_tags():
         sc.mem[g["inst"]] = bytes((g["inst"] * 31 + k * 7) & 0xFF for k in range(sc.tag_size(g)))
     sc.cfg["rev_major"] = 32
@@ -515,6 +523,37 @@ def req_class(req, rv, adr):
     return {"i": "int", "b": "bool", "r": "real", "l": "lreal", "s": "string", "S": "struct"}.get(k, k)
 
 
+def write_shape(req, rv):
+    """how the request addresses its data (the cases of Props/C02: C02_value/_struct/_string = whole tag or scalar member;
+    C02_write_correct_element = one element through an array class; C02_write_correct_slice1 = `{1}`; C02_array/_slice = `{n}`)
+    x what is written there"""
+    m = re.search(r"\{(\d+)\}$", req)
+    base = req[:m.start()] if m else req
+    b2 = base.split(".", 1)[1] if base.startswith("Program:") and "." in base else base
+    where = "member" if "." in b2 else "tag"
+    if is_bit_request(req):
+        return where + ".bit"
+    if m:
+        n = int(m.group(1))
+        extra = "+longer-list" if rv[0] == "L" and len(rv[1]) > n else ""
+        idx = "[i]" if base.endswith("]") else ""
+        addr = f"{where}{idx}{{1}}" if n == 1 else f"{where}{idx}{{n}}"
+        ek = rv[1][0][0] if rv[0] == "L" and rv[1] else rv[0]
+    else:
+        extra = ""
+        addr = where + ("[i]" if base.endswith("]") else "")
+        ek = rv[0]
+    what = {"i": "int", "r": "real", "l": "lreal", "b": "bool", "s": "string", "S": "struct-dict"}.get(ek, ek)
+    if ek == "S":
+        def has_bool_array(v):
+            return any((e[0] == "L" and e[1] and e[1][0][0] == "b") or (e[0] == "S" and has_bool_array(e)) or
+                       (e[0] == "L" and e[1] and e[1][0][0] == "S" and any(has_bool_array(x) for x in e[1])) for _, e in v[1])
+        sv = rv[1][0] if rv[0] == "L" else rv
+        if has_bool_array(sv):
+            what += "+bool-array-member"
+    return f"{addr}:{what}{extra}"
+
+
 def transfers_of(evs):
     """the write services the target EXECUTED, from its log: [(service, inst, at, stored bytes, request data)],
     fragments of one transfer (offsets continuing) merged: -> (plain transfers, rmw events, problems)"""
@@ -562,6 +601,8 @@ def oracle_call(R, ctx, case, pairs, refs, adr, results, before, after, evs, fra
     for (t, _), rv, a, o in zip(pairs, refs, adr, ok):
         cls = req_class(t, rv, a) if rv is not None else "invalid"
         R.count("request_class", cls + (":ok" if o else ":failed"))
+        if rv is not None and a is not None:
+            R.count("write_shape", write_shape(t, rv) + (":ok" if o else ":failed"))
     # a valid request must not be refused by the controller for being malformed / oversize
     bad = T.bad_events(evs)
     valid_only = all(a is not None for a in adr)
@@ -1175,10 +1216,18 @@ def history_scenario(R, mp, rng, sc, sid, thorough):
         # two controllers in one process: the same project downloaded with other symbol instance ids; the
         # same request strings go to controller 1 and then to controller 2, each held to the full oracle on
         # ITS controller's memory (nothing learnt from one controller may address the other)
-        sc2 = renumbered(rng, sc)
+        # (symbol-instance addressing is what carries a controller's ids into the requests: both controllers
+        #  run firmware that offers it, whatever generation the failure stage above ran on)
+        sc1 = copy.deepcopy(sc)
+        sc1.cfg["rev_major"] = max(21, sc.cfg.get("rev_major", 32))
+        sc1.mem = dict(all_mem(ctx["tp"]))
+        sc2 = renumbered(rng, sc1)
+        close_ctx(ctx)
+        ctx = make_ctx(sc1, sid + "/controller1", False)
         ctx3 = make_ctx(sc2, sid + "/controller2", False)
         try:
             ctx["history"] = []
+            R.count("two_controllers", f"instance_ids={ctx['drv']._cfg['use_instance_ids']}")
             for c in range(4 if thorough else 3):
                 nxt = gen_call(rng, ctx, rng.choice([1, 2, 3, 6]))
                 if not nxt:
